@@ -413,3 +413,79 @@ class SlicePopulation(Contract):
 
 
 REGISTRY.append(SlicePopulation())
+
+
+class PairwiseMeansWelch(Contract):
+    """C13 for mean responses: Welch's unequal-variance test on the cell means, standard
+    deviations and (unweighted) counts of column b against the selected column a in the same
+    row: t = (m_b - m_a) / sqrt(s_b^2/n_b + s_a^2/n_a), Welch-Satterthwaite degrees of freedom,
+    two-sided Student-t p-value; subtotals NaN; a selected *subtotal* column gives NaN"""
+
+    name = MOD + ":_PairwiseMeansSigTStats / _PairwiseMeansSigPVals.blocks"
+    props = ("C13", "C04")
+
+    def configs(self):
+        return [dict(neg=False), dict(neg=True)]
+
+    def size_space(self, cfg):
+        sp = SliceEnv.size_space(True, True)
+        return sp
+
+    def run(self, B, cfg):
+        env = SliceEnv(B, True, True)
+        R, C = env.R, env.C
+        M = B.tensor("means", (R, C), maybe_nan=True)
+        SD = B.tensor("stddev", (R, C), nonneg=True, maybe_nan=True)
+        N = B.tensor("n", (R, C), nonneg=True)
+        cm = B.stub(
+            "cube_measures", cube_means=B.stub("cube_means", means=M), cube_stddev=B.stub("cube_stddev", stddev=SD),
+            unweighted_cube_counts=B.stub("u", counts=N),
+        )
+        a = B.integer("a", -env.cols.S, -1) if cfg["neg"] else B.integer("a", 0, C - 1)
+        rd = B.rd
+        nan_blocks = lambda: [[None, B.spec_tensor((R, env.cols.S), lambda i, t: B.NaN())],  # noqa: E731
+                              [B.spec_tensor((env.rows.S, C), lambda s, j: B.NaN()),
+                               B.spec_tensor((env.rows.S, env.cols.S), lambda s, t: B.NaN())]]
+
+        def var(i, j):
+            return rd(SD, i, j) * rd(SD, i, j)
+
+        def tcell(i, j):
+            if cfg["neg"]:
+                return B.NaN()
+            return (rd(M, i, j) - rd(M, i, a)) / B.sqrt(var(i, j) / rd(N, i, j) + var(i, a) / rd(N, i, a))
+
+        def df(i, j):
+            x, y = var(i, j) / rd(N, i, j), var(i, a) / rd(N, i, a)
+            return (x + y) * (x + y) / (x * x / (rd(N, i, j) - 1) + y * y / (rd(N, i, a) - 1))
+
+        t_obj = B.new("%s:_PairwiseMeansSigTStats" % MOD, env.dims, B.stub("som"), cm, a)
+        tb = t_obj.blocks
+        exp = nan_blocks()
+        exp[0][0] = B.spec_tensor((R, C), tcell)
+        for x in (0, 1):
+            for y in (0, 1):
+                B.eq_tensor("t:blocks[%d][%d]" % (x, y), tb[x][y], exp[x][y])
+        if cfg["neg"]:
+            return
+        p_obj = B.new("%s:_PairwiseMeansSigPVals" % MOD, env.dims, B.stub("som"), cm, a)
+        pb = p_obj.blocks
+        expp = nan_blocks()
+        expp[0][0] = B.spec_tensor((R, C), lambda i, j: 2 * (1 - B.Tcdf(abs(tcell(i, j)), df(i, j))))
+        for x in (0, 1):
+            for y in (0, 1):
+                B.eq_tensor("p:blocks[%d][%d]" % (x, y), pb[x][y], expp[x][y])
+        blk = pb[0][0]
+        B.all_cells(
+            "p-in[0,1]", (R, C),
+            lambda i, j: B.bor(B.isnan(rd(blk, i, j)), B.band(B.fle(0, rd(blk, i, j)), B.fle(rd(blk, i, j), 1))),
+        )
+        # the selected column against itself: t == 0 (or NaN), never significant
+        B.all_cells("t(a,a)==0-or-NaN", (R,), lambda i: B.bor(B.isnan(rd(tb[0][0], i, a)), B.feq(rd(tb[0][0], i, a), 0)))
+
+    def assumptions(self):
+        return ["A-CDF: scipy.stats.t.cdf(x, df) in [0,1], = 1/2 at 0, symmetric, NaN-propagating, NaN for df <= 0",
+                "cut: cube means / stddev / unweighted (valid) counts as delivered by their plane-selector contracts"]
+
+
+REGISTRY.append(PairwiseMeansWelch())
